@@ -68,6 +68,8 @@ PROGRAMS = [
     "match s:\n    case 1:\n        with a:\n            b\n        c\n        d",
     # 52: strings spread over several source lines by backslash-newline only (no line break in the value) in (non-)docstring position
     "class G:\n    def m(self):\n        \"\"\"Return \\\n        more.\"\"\"\n        s = 'p \\\n        q'\n        'r \\\n        t'\n        return s",
+    # 53: parameter lists that start with the bare '*' / have only keyword-only parameters
+    "def f(*, a, b=1): pass\ng = lambda *, k: k\nasync def h(p, /, *, q): pass",
 ]
 
 for _p in PROGRAMS:
